@@ -49,10 +49,14 @@ def worker(arg):
         fs = files_of(defs)
         lookups = []
         if pl != "target":
-            moved = defs[0] if pl == "oldest-in-lookup" else defs[-1]
+            # the type is renamed so that other direct definitions sort before AND after it: in the list of all types
+            # (transitive, then direct) its versions are then not neighbours
+            ren = [dict(d_, name="M" + d_["name"]) for d_ in defs]
+            moved = ren[0] if pl == "oldest-in-lookup" else ren[-1]
             one = files_of([moved])
-            fs = {("l/" + k if k in one else "t/" + k): v for k, v in fs.items()}
+            fs = {("l/" + k if k in one else "t/" + k): v for k, v in files_of(ren).items()}
             fs["t/vnd/Zref.1.0.dsdl"] = "vnd.%s.%d.%d x\n@sealed\n" % (moved["name"], moved["maj"], moved["min"])
+            fs["t/vnd/Aref.1.0.dsdl"] = "vnd.%s.%d.%d x\n@sealed\n" % (moved["name"], moved["maj"], moved["min"])
         with dsdlio.Tree(fs, "c11") as tr:
             if pl == "target":
                 status, res, _ = dsdlio.read_ns(tr.path("vnd"), allow_unregulated=True)
